@@ -545,7 +545,8 @@ def pcgeom(nr, npp, ncp, ri, ncmar):
     # cr = np.clip(cr, 1.e-3, nr - 1.001)
     # cp = np.clip(cp, 1.e-3, npp - 1.001)
     cr = np.clip(cr, 1e-3, nr - 1.001)  # - 1.00)
-    cp = np.clip(cp, 1e-3, npp - 1.001)  # - 1.00)
+    # (no upper clip: the azimuth is periodic, pol2car interpolates across theta = 2 pi)
+    cp = np.clip(cp, 1e-3, npp)
 
     geom = {'px': px, 'py': py, 'cr': cr, 'cp': cp,
             'pincx': pincx, 'pincy': pincy, 'pincw': pincw,
@@ -563,6 +564,9 @@ def pol2car(cpgeom, pol, mask=False):
     '''
     # f = interp2d(cpgeom['cr'], cpgeom['cp'], pol)
 
+    # the azimuthal samples are periodic: close the circle with a copy of the first column, so that pixels in the last
+    # azimuthal cell are interpolated between the last and the first sample (they used to be clamped to the last one)
+    pol = np.concatenate((pol, pol[:, :1]), axis=1)
     cd = map_coordinates(pol, [cpgeom['cr'], cpgeom['cp']],
                          order=1, mode='nearest')
     if mask is not False:
